@@ -544,6 +544,7 @@ func (c *Client) closeWithError(err error) {
 
 	c.mutex.Lock()
 	c.state = imap.ConnStateLogout
+	c.mailbox = nil
 	pendingCmds := c.pendingCmds
 	c.pendingCmds = nil
 	c.mutex.Unlock()
